@@ -110,6 +110,7 @@ func (c *clientConn) recv() error {
 			return fmt.Errorf("sid not found: %d", sid)
 		}
 
+		vhook("cc.deliver", uint64(sid), 1)
 		ch <- result{typ: typ, data: data}
 	}
 }
@@ -121,12 +122,14 @@ func (c *clientConn) putChannel(ch chan<- result, sid uint32) bool {
 	select {
 	case <-c.closed:
 		// already closed with broadcastErr, return error on chan.
+		vhook("cc.deliver", uint64(sid), 2)
 		ch <- result{err: ErrSSHFxConnectionLost}
 		return false
 	default:
 	}
 
 	c.inflight[sid] = ch
+	vhook("cc.put", uint64(sid), 0)
 	return true
 }
 
@@ -179,6 +182,7 @@ func (c *clientConn) dispatchRequest(ch chan<- result, p idmarshaler) {
 
 	if err := c.conn.sendPacket(p); err != nil {
 		if ch, ok := c.getChannel(sid); ok {
+			vhook("cc.deliver", uint64(sid), 3)
 			ch <- result{err: err}
 		}
 	}
@@ -191,6 +195,7 @@ func (c *clientConn) broadcastErr(err error) {
 
 	bcastRes := result{err: ErrSSHFxConnectionLost}
 	for sid, ch := range c.inflight {
+		vhook("cc.deliver", uint64(sid), 4)
 		ch <- bcastRes
 
 		// Replace the chan in inflight,
@@ -201,6 +206,7 @@ func (c *clientConn) broadcastErr(err error) {
 
 	c.err = err
 	close(c.closed)
+	vhook("cc.closed", 0, 0)
 }
 
 type serverConn struct {
